@@ -36,12 +36,23 @@ const (
 	cReadOne         = 8
 	cForEach         = 15
 	cWorker          = 16
+	cGenerateAbort   = 17 // GenerateParallel whose generator ends with a real error: an ABORTED run
 )
+
+// how the generator of a GenerateParallel case reports that it has no more values
+const (
+	endEOF     = 0 // a bare io.EOF
+	endWrapped = 1 // an error that wraps io.EOF: end-of-stream everywhere in the library (errors.Is)
+	endFailure = 2 // a real error: the run is aborted (construct code cGenerateAbort)
+)
+
+var errGenerator = errors.New("generator failed")
+
 
 var names = map[int]string{
 	cSplit: "Split", cProcessParallel: "ProcessParallel", cMap: "Map", cParallelBuffer: "ParallelBuffer",
 	cBuffer: "Buffer", cMerge: "MergeIterators", cGenerate: "GenerateParallel", cReadOne: "ReadOne",
-	cForEach: "ParallelForEach", cWorker: "Worker",
+	cForEach: "ParallelForEach", cWorker: "Worker", cGenerateAbort: "GenerateParallel",
 }
 
 type Case struct {
@@ -53,6 +64,8 @@ type Case struct {
 	Cap       int     `json:"cap"`
 	Procs     int     `json:"gomaxprocs"`
 	Jitter    uint64  `json:"jitter"`
+	End       int     `json:"end"`  // GenerateParallel: endEOF / endWrapped / endFailure
+	Race      bool    `json:"race"` // GenerateParallel: the call producing the last value is still running when another call reports the end
 }
 
 const runBound = 20 * time.Second
@@ -99,6 +112,58 @@ func source(c Case, in []int64, site uint64) *fun.Iterator[int64] {
 		jit(c.Jitter, v, site)
 		return v, nil
 	})
+}
+
+// generator hands out the input, one value per call (calls come from several goroutines), and then
+// reports the end in the way the case says. With Race the schedule is driven from inside the
+// generator: the call that produces the LAST value does not return before another call has seen the
+// end of the stream, and then waits (bounded, 2 ms) for its own context to end - which only happens if
+// that other call's end-of-stream made the library cancel the worker group. The value it returns is
+// then "generated but not yet sent"; nothing was aborted, so it has to come out.
+func generator(c Case) fun.Producer[int64] {
+	var next atomic.Int64
+	in := c.Input
+	end := func() error {
+		switch c.End {
+		case endWrapped:
+			return fmt.Errorf("generator exhausted: %w", io.EOF)
+		case endFailure:
+			return errGenerator
+		}
+		return io.EOF
+	}
+	if !c.Race || len(in) == 0 || c.Workers < 2 {
+		return func(context.Context) (int64, error) {
+			i := next.Add(1) - 1
+			if int(i) >= len(in) {
+				return 0, end()
+			}
+			jit(c.Jitter, in[i], 2)
+			return in[i], nil
+		}
+	}
+	lastStarted, endSeen := make(chan struct{}), make(chan struct{})
+	var once sync.Once
+	return func(ctx context.Context) (int64, error) {
+		i := int(next.Add(1) - 1)
+		switch {
+		case i < len(in)-1:
+			jit(c.Jitter, in[i], 2)
+			return in[i], nil
+		case i == len(in)-1:
+			close(lastStarted)
+			<-endSeen
+			select {
+			case <-ctx.Done():
+			case <-time.After(2 * time.Millisecond):
+			}
+			return in[i], nil
+		default:
+			<-lastStarted
+			once.Do(func() { close(endSeen) })
+			return 0, end()
+		}
+	}
 }
 
 // drain reads an iterator with ReadOne until it reports an error and returns that error.
@@ -231,18 +296,13 @@ func body(ctx context.Context, c Case, out *bag) error {
 		it := fun.MergeIterators(srcs...)
 		err := isEOF(drain(ctx, it, c, out, 3))
 		return ers.Join(err, it.Close())
-	case cGenerate:
-		var next atomic.Int64
-		in := c.Input
-		it := fun.Producer[int64](func(context.Context) (int64, error) {
-			i := next.Add(1) - 1
-			if int(i) >= len(in) {
-				return 0, io.EOF
-			}
-			jit(c.Jitter, in[i], 2)
-			return in[i], nil
-		}).GenerateParallel(opt)
+	case cGenerate, cGenerateAbort:
+		it := generator(c).GenerateParallel(opt)
 		err := isEOF(drain(ctx, it, c, out, 3))
+		if c.Construct == cGenerateAbort {
+			_, _ = err, it.Close() // both report the generator's error: the run was aborted by it
+			return nil
+		}
 		return ers.Join(err, it.Close())
 	case cReadOne:
 		ch := make(chan int64, c.Cap)
@@ -314,6 +374,9 @@ func oracle(c Case, r result) (string, string) {
 			return "duplicated", fmt.Sprintf("value %d supplied %d time(s), delivered %d time(s)", v, in[v], n)
 		}
 	}
+	if c.Construct == cGenerateAbort { // an aborted run may stop short; it must not invent or duplicate
+		return "", ""
+	}
 	for v, n := range in {
 		if got[v] < n {
 			return "lost", fmt.Sprintf("value %d supplied %d time(s), delivered %d time(s)", v, n, got[v])
@@ -348,7 +411,7 @@ func execCase(run *kit.Run, c Case, verbose bool) {
 	run.Count(fmt.Sprintf("workers=%d", c.Workers))
 	term := fmt.Sprintf("C01Case %s %s %s %s %s %s %s", kit.ZI(c.ID), kit.ZI(c.Construct), kit.ZI(c.Workers), kit.ZI(c.Cap),
 		kit.ZList(c.Input), kit.ZList(r.Delivered), kit.Bool(!r.TimedOut && r.Err == ""))
-	run.Case(c.ID, c, term, fmt.Sprintf("%d|%d|%d|%v", c.Construct, c.Workers, c.Cap, c.Input), len(c.Input) >= 2)
+	run.Case(c.ID, c, term, fmt.Sprintf("%d|%d|%d|%d|%v|%v", c.Construct, c.Workers, c.Cap, c.End, c.Race, c.Input), len(c.Input) >= 2)
 }
 
 func bucket(n int) string {
@@ -389,7 +452,7 @@ func main() {
 	run.Header = "From FunV Require Import Base.Tac Corr.C01_corr."
 	run.Footer = "Definition M := Eval vm_compute in mismatches cases.\nPrint M."
 	run.CaseType = "case"
-	run.Rule = "every construct (Split, ProcessParallel, ParallelForEach, Worker, Map, ParallelBuffer, Buffer, MergeIterators, GenerateParallel, concurrent ReadOne) x workers {1,2,3,8} x lengths {0,1,2,w-1,w,w+1,7,16,33,64} x buffer sizes {0,1,len} (Buffer, ReadOne) x GOMAXPROCS {1,2,4,8} x seeded Gosched/sleep jitter in every user function; distinct = distinct (construct, workers, cap, input); non-trivial = at least 2 items"
+	run.Rule = "every construct (Split, ProcessParallel, ParallelForEach, Worker, Map, ParallelBuffer, Buffer, MergeIterators, GenerateParallel, concurrent ReadOne) x workers {1,2,3,8} x lengths {0,1,2,w-1,w,w+1,7,16,33,64} x buffer sizes {0,1,len} (Buffer, ReadOne) x GOMAXPROCS {1,2,4,8} x seeded Gosched/sleep jitter in every user function; GenerateParallel additionally x end-of-stream kind {io.EOF, error wrapping io.EOF, real error = aborted run (only no-invention/no-duplication is required)} x {free schedule, driver-controlled schedule: the call producing the last value returns only after another worker's call reported the end} x workers {2,3,8} x lengths {1,2,3,4,7}; distinct = distinct (construct, workers, cap, end kind, schedule, input); non-trivial = at least 2 items"
 
 	if run.Replay != "" {
 		var c Case
@@ -443,8 +506,37 @@ func main() {
 						if r.Chance(1, 8) {
 							c.Jitter = 0
 						}
+						if k == cGenerate {
+							c.End = r.Intn(2)
+						}
 						id++
 						if run.NOracle >= 5 { // enough evidence; a hanging case costs the full time bound
+							continue
+						}
+						execCase(run, c, false)
+					}
+				}
+			}
+		}
+	}
+	// GenerateParallel: a value that is in flight when another worker reports the end of the stream
+	raceRounds := run.Pick(12, 120)
+	for round := 0; round < raceRounds; round++ {
+		for _, w := range []int{2, 3, 8} {
+			for _, n := range []int{1, 2, 3, 4, 7} {
+				for _, end := range []int{endEOF, endWrapped, endFailure} {
+					for _, race := range []bool{true, false} {
+						if end == endFailure && round%4 != 0 {
+							continue
+						}
+						r := run.Rand.Fork()
+						c := Case{ID: id, Construct: cGenerate, Workers: w, Input: genInput(r, n), Procs: procs[r.Intn(4)],
+							Jitter: r.U64() | 1, End: end, Race: race}
+						if end == endFailure {
+							c.Construct = cGenerateAbort
+						}
+						id++
+						if run.NOracle >= 5 {
 							continue
 						}
 						execCase(run, c, false)
